@@ -218,7 +218,174 @@ Proof.
 Qed.
 
 (* ================================================================== *)
-(* 2. Etcd sequencer                                                   *)
+(* 2a. The etcd sequencer with unbounded arithmetic (proof device): the  *)
+(*     uint64 model of model/Seq.v coincides with it on every step whose *)
+(*     guard [mguard] holds                                              *)
+(* ================================================================== *)
+Definition reqsteps_u (count : N) : N := if etcd_steps <? count then etcd_steps + count else etcd_steps.
+
+Definition mstep_u (i : nat) (st : option N) (m : mst) (a : act) : option N * mst * option mev :=
+  match a with
+  | ABoot => (st, set_pc m (MaxGet Boot (file m)), None)
+  | ANext count =>
+      match p m with
+      | Idle =>
+          if cur m + count <? mx m
+          then (st, {| cur := cur m + count; mx := mx m; file := file m; p := Idle |}, Some (MRet i (cur m) count))
+          else (st, set_pc m (NextGet count), None)
+      | _ => (st, m, None)
+      end
+  | ASetMax k =>
+      match p m with
+      | Idle =>
+          if mx m <? k
+          then (st, set_pc m (MaxGet Beat k), None)
+          else (st, m, Some (MMax i k (k <? cur m)))
+      | _ => (st, m, None)
+      end
+  | ATick f =>
+      match p m with
+      | Idle | Down => (st, m, None)
+      | NextGet count =>
+          match f, st with
+          | Ok, Some v => (st, set_pc m (NextSet count v), None)
+          | _, _ => (st, set_pc m Idle, Some (MRetErr i count))
+          end
+      | NextSet count prev =>
+          let steps := reqsteps_u count in
+          match f with
+          | Ok =>
+              if hit st prev
+              then (Some (prev + steps),
+                    {| cur := prev + count; mx := prev + steps; file := prev + steps; p := Idle |},
+                    Some (MRet i prev count))
+              else (st, set_pc m (NextGet count), None)
+          | Err => (st, set_pc m (NextGet count), None)
+          | ErrAfter => ((if hit st prev then Some (prev + steps) else st), set_pc m (NextGet count), None)
+          end
+      | MaxGet w k =>
+          match f, st with
+          | Ok, None => (st, set_pc m (MaxCreate w k), None)
+          | Ok, Some v =>
+              if k <=? v
+              then let '(m', e) := max_done i m w k v in (st, m', e)
+              else (st, set_pc m (MaxSet w k v), None)
+          | _, _ => let '(m', e) := max_fail i m w k in (st, m', e)
+          end
+      | MaxCreate w k =>
+          match f with
+          | Ok => ((match st with None => Some k | Some _ => st end), set_pc m (MaxGet w k), None)
+          | Err => let '(m', e) := max_fail i m w k in (st, m', e)
+          | ErrAfter => let '(m', e) := max_fail i m w k in ((match st with None => Some k | Some _ => st end), m', e)
+          end
+      | MaxSet w k prev =>
+          match f with
+          | Ok =>
+              if hit st prev then (Some k, set_pc m (MaxGet w k), None)
+              else let '(m', e) := max_fail i m w k in (st, m', e)
+          | Err => let '(m', e) := max_fail i m w k in (st, m', e)
+          | ErrAfter => let '(m', e) := max_fail i m w k in ((if hit st prev then Some k else st), m', e)
+          end
+      end
+  end.
+
+Definition estep_u (s : est) (ia : nat * act) : est * option mev :=
+  let '(i, a) := ia in
+  if Nat.ltb i (length (masters s)) then
+    let '(st', m', e) := mstep_u i (store s) (nth i (masters s) mst0) a in
+    ({| store := st'; masters := setnth (masters s) i m' |}, e)
+  else (s, None).
+Definition erun_u (s : est) (sched : list (nat * act)) : est * list (option mev) := grun estep_u s sched.
+Definition etcd_trace_u (n : nat) (sched : list (nat * act)) : list mev := somes (snd (erun_u (einit n) sched)).
+
+Lemma w64_small : forall x, x < two64 -> w64 x = x.
+Proof. intros x H. unfold w64. apply N.mod_small. exact H. Qed.
+
+Lemma reqsteps_eq : forall count, etcd_steps + count < two64 -> reqsteps count = reqsteps_u count.
+Proof.
+  intros count H. unfold reqsteps, reqsteps_u. destruct (etcd_steps <? count); [|reflexivity].
+  apply w64_small. exact H.
+Qed.
+
+Lemma reqsteps_u_pos : forall count, count <= reqsteps_u count /\ 0 < reqsteps_u count.
+Proof. intros count. unfold reqsteps_u, etcd_steps. destruct (500 <? count) eqn:E; lia. Qed.
+
+Lemma sub_back : forall prev steps, prev + steps < two64 -> w64 (w64 (prev + steps) + two64 - steps) = prev.
+Proof.
+  intros prev steps H. rewrite (w64_small _ H).
+  replace (prev + steps + two64 - steps) with (prev + 1 * two64) by lia.
+  unfold w64. rewrite N.mod_add by (unfold two64; lia). apply N.mod_small. lia.
+Qed.
+
+Lemma mstep_eq : forall i st m a, mguard m a = true -> mstep i st m a = mstep_u i st m a.
+Proof.
+  intros i st m a Hg. destruct a as [count|k| |f]; unfold mstep, mstep_u, mguard in *; try reflexivity.
+  - destruct (p m); try reflexivity.
+    apply andb_true_iff in Hg. destruct Hg as [G1 G2].
+    rewrite (w64_small (cur m + count)) by lia.
+    destruct (cur m + count <? mx m); [reflexivity|].
+    rewrite reqsteps_eq by lia. destruct (reqsteps_u_pos count) as [_ Hp].
+    destruct (reqsteps_u count =? 0) eqn:E; [lia|reflexivity].
+  - destruct (p m) as [| |c|count prev|w k|w k|w k prev]; try reflexivity.
+    apply andb_true_iff in Hg. destruct Hg as [G1 G2].
+    rewrite reqsteps_eq in * by lia. destruct (reqsteps_u_pos count) as [Hle _].
+    cbv zeta.
+    rewrite sub_back by lia.
+    rewrite (w64_small (prev + reqsteps_u count)) by lia.
+    rewrite (w64_small (prev + count)) by lia.
+    reflexivity.
+Qed.
+
+Lemma estep_eq : forall s ia, eguard s ia = true -> estep s ia = estep_u s ia.
+Proof.
+  intros s [i a] Hg. unfold estep, estep_u, eguard in *. simpl in Hg.
+  destruct (Nat.ltb i (length (masters s))); [|reflexivity].
+  rewrite (mstep_eq _ _ _ _ Hg). reflexivity.
+Qed.
+
+Lemma grun_ext : forall {St I E} (step step' : St -> I -> St * option E) g,
+  (forall s i, g s i = true -> step s i = step' s i) ->
+  forall l s, gall step g s l = true -> grun step s l = grun step' s l.
+Proof.
+  intros St I E step step' g Heq. induction l as [|i l IH]; intros s H; simpl in *; [reflexivity|].
+  apply andb_true_iff in H. destruct H as [H1 H2].
+  rewrite <- (Heq s i H1). destruct (step s i) as [s' e]. simpl in H2. rewrite (IH s' H2). reflexivity.
+Qed.
+
+Lemma etcd_trace_eq : forall n sched, etcd_fits n sched = true -> etcd_trace n sched = etcd_trace_u n sched.
+Proof.
+  intros n sched H. unfold etcd_trace, etcd_trace_u, erun, erun_u.
+  rewrite (grun_ext estep estep_u eguard estep_eq sched (einit n) H). reflexivity.
+Qed.
+
+(* the run up to the first failing guard *)
+Lemma gall_fit_len : forall {St I E} (step : St -> I -> St * option E) g l s,
+  gall step g s (firstn (gfit_len step g s l) l) = true.
+Proof.
+  induction l as [|i l IH]; intros s; simpl; [reflexivity|].
+  destruct (g s i) eqn:Eg; simpl; [|reflexivity]. rewrite Eg. simpl. apply IH.
+Qed.
+
+Lemma grun_firstn : forall {St I E} (step : St -> I -> St * option E) k l s,
+  snd (grun step s (firstn k l)) = firstn k (snd (grun step s l)).
+Proof.
+  induction k as [|k IH]; intros l s; simpl.
+  - destruct l; reflexivity.
+  - destruct l as [|i l]; simpl; [reflexivity|].
+    destruct (step s i) as [s' e]. specialize (IH l s').
+    destruct (grun step s' (firstn k l)) as [sf tr]. destruct (grun step s' l) as [sf' tr']. simpl in *.
+    f_equal. exact IH.
+Qed.
+
+Lemma gfit_len_all : forall {St I E} (step : St -> I -> St * option E) g l s,
+  gall step g s l = true -> gfit_len step g s l = length l.
+Proof.
+  induction l as [|i l IH]; intros s H; simpl in *; [reflexivity|].
+  apply andb_true_iff in H. destruct H as [H1 H2]. rewrite H1. f_equal. apply IH. exact H2.
+Qed.
+
+(* ================================================================== *)
+(* 2b. Etcd sequencer, unbounded arithmetic                            *)
 (* ================================================================== *)
 
 (* value of the shared counter (0 while the key does not exist) *)
@@ -228,8 +395,8 @@ Definition EV (st : option N) : N := match st with Some v => v | None => 0 end.
 Definition Lm (st : option N) (m : mst) : Prop :=
   cur m <= mx m /\ mx m <= EV st /\ match p m with MaxSet _ k prev => prev < k | _ => True end.
 
-Lemma reqsteps_ge : forall count, count <= reqsteps count.
-Proof. intros count. unfold reqsteps, etcd_steps. destruct (500 <? count) eqn:E; lia. Qed.
+Lemma reqsteps_ge : forall count, count <= reqsteps_u count.
+Proof. intros count. unfold reqsteps_u, etcd_steps. destruct (500 <? count) eqn:E; lia. Qed.
 
 Definition mfacts (i : nat) (st : option N) (m : mst) (st' : option N) (m' : mst) (e : option mev) : Prop :=
   EV st <= EV st' /\ cur m <= cur m' /\ Lm st' m' /\ (mx m' = mx m \/ EV st <= cur m') /\
@@ -246,10 +413,10 @@ Proof. intros [v|] prev H; simpl in H; [|discriminate]. f_equal. lia. Qed.
 
 Ltac inv_step H := inversion H; subst; clear H.
 
-Lemma mstep_facts : forall i st m a st' m' e, Lm st m -> mstep i st m a = (st', m', e) -> mfacts i st m st' m' e.
+Lemma mstep_facts : forall i st m a st' m' e, Lm st m -> mstep_u i st m a = (st', m', e) -> mfacts i st m st' m' e.
 Proof.
   intros i st m a st' m' e [HL1 [HL2 HL3]] Hs. unfold mfacts, Lm.
-  destruct a as [count|k| |f]; unfold mstep in Hs.
+  destruct a as [count|k| |f]; unfold mstep_u in Hs.
   - (* ANext *)
     destruct (p m) eqn:Ep; try (inv_step Hs; rewrite ?Ep; repeat split; auto; lia).
     destruct (cur m + count <? mx m) eqn:Ec; inv_step Hs; simpl; rewrite ?Ep; repeat split; auto; lia.
@@ -322,15 +489,15 @@ Lemma Lm_mono : forall st st' m, EV st <= EV st' -> Lm st m -> Lm st' m.
 Proof. intros st st' m H [H1 [H2 H3]]. repeat split; auto. lia. Qed.
 
 Lemma estep_ok : forall s past ia, Ginv s past -> (fun _ _ => true) s ia = true ->
-  match snd (estep s ia) with
-  | Some x => Ginv (fst (estep s ia)) (x :: past) /\ (forall old, In old past -> mev_ok old x)
-  | None => Ginv (fst (estep s ia)) past
+  match snd (estep_u s ia) with
+  | Some x => Ginv (fst (estep_u s ia)) (x :: past) /\ (forall old, In old past -> mev_ok old x)
+  | None => Ginv (fst (estep_u s ia)) past
   end.
 Proof.
-  intros s past [i a] HG _. unfold estep.
+  intros s past [i a] HG _. unfold estep_u.
   destruct (Nat.ltb i (length (masters s))) eqn:Ei; [|simpl; exact HG].
   apply Nat.ltb_lt in Ei.
-  destruct (mstep i (store s) (nth i (masters s) mst0) a) as [[st' m'] e] eqn:Es.
+  destruct (mstep_u i (store s) (nth i (masters s) mst0) a) as [[st' m'] e] eqn:Es.
   pose proof (mstep_facts _ _ _ _ _ _ _ (g_loc _ _ HG i) Es) as [F1 [F2 [F3 [F4 F5]]]].
   fold (getm s i) in *. simpl.
   set (s' := {| store := st'; masters := setnth (masters s) i m' |}).
@@ -394,42 +561,94 @@ Proof.
   - intros ? ? [].
 Qed.
 
-Theorem etcd_all : forall n sched, ForallOrdPairs mev_ok (etcd_trace n sched).
+Theorem etcd_all_u : forall n sched, ForallOrdPairs mev_ok (etcd_trace_u n sched).
 Proof.
-  intros n sched. unfold etcd_trace, erun.
-  destruct (grun_ok _ _ _ estep (fun _ _ => true) mev_ok Ginv estep_ok sched (einit n) [] (Ginv_init n) (gall_true _ _ _)) as [H _].
+  intros n sched. unfold etcd_trace_u, erun_u.
+  destruct (grun_ok _ _ _ estep_u (fun _ _ => true) mev_ok Ginv estep_ok sched (einit n) [] (Ginv_init n) (gall_true _ _ _)) as [H _].
   exact H.
 Qed.
 
-Theorem etcd_ranges_ok : forall n sched, etcd_err_trigger (etcd_trace n sched) = false ->
-  ForallOrdPairs ranges_ok (map vis (etcd_trace n sched)).
+Theorem etcd_ranges_ok_u : forall n sched, etcd_err_trigger (etcd_trace_u n sched) = false ->
+  ForallOrdPairs ranges_ok (map vis (etcd_trace_u n sched)).
 Proof.
-  intros n sched Ht. eapply fop_map_in; [apply etcd_all|].
+  intros n sched Ht. eapply fop_map_in; [apply etcd_all_u|].
   intros x y Hx Hy Hxy. unfold etcd_err_trigger in Ht.
   assert (Hnx : is_reterr x = false).
   { destruct (is_reterr x) eqn:E; auto. exfalso.
-    assert (existsb is_reterr (etcd_trace n sched) = true) by (apply existsb_exists; eauto). congruence. }
+    assert (existsb is_reterr (etcd_trace_u n sched) = true) by (apply existsb_exists; eauto). congruence. }
   assert (Hny : is_reterr y = false).
   { destruct (is_reterr y) eqn:E; auto. exfalso.
-    assert (existsb is_reterr (etcd_trace n sched) = true) by (apply existsb_exists; eauto). congruence. }
+    assert (existsb is_reterr (etcd_trace_u n sched) = true) by (apply existsb_exists; eauto). congruence. }
   destruct x as [? ? ?|? ?|? ? ?], y as [? ? ?|? ?|? ? ?]; simpl in *; try discriminate; auto.
 Qed.
 
-Theorem etcd_partial_ok : forall n sched,
+Theorem etcd_partial_ok_u : forall n sched,
+  etcd_err_trigger (etcd_trace_u n sched) = false ->
+  etcd_setmax_trigger (etcd_trace_u n sched) = false ->
+  ForallOrdPairs ev_ok (map vis (etcd_trace_u n sched)).
+Proof.
+  intros n sched Ht Hu. eapply fop_map_in; [apply etcd_all_u|].
+  intros x y Hx Hy Hxy. unfold etcd_err_trigger, etcd_setmax_trigger in *.
+  assert (Hn : forall z, In z (etcd_trace_u n sched) -> is_reterr z = false /\ is_unsafe_max z = false).
+  { intros z Hz. split.
+    - destruct (is_reterr z) eqn:E; auto. exfalso.
+      assert (existsb is_reterr (etcd_trace_u n sched) = true) by (apply existsb_exists; eauto). congruence.
+    - destruct (is_unsafe_max z) eqn:E; auto. exfalso.
+      assert (existsb is_unsafe_max (etcd_trace_u n sched) = true) by (apply existsb_exists; eauto). congruence. }
+  destruct (Hn x Hx) as [X1 X2]. destruct (Hn y Hy) as [Y1 Y2].
+  destruct x as [? ? ?|? ?|? ? []], y as [? ? ?|? ?|? ? []]; simpl in *; try discriminate; auto.
+Qed.
+
+
+(* ---- the same for the uint64 model, as long as no operation wraps ---- *)
+Theorem etcd_all : forall n sched, etcd_fits n sched = true -> ForallOrdPairs mev_ok (etcd_trace n sched).
+Proof. intros n sched H. rewrite (etcd_trace_eq _ _ H). apply etcd_all_u. Qed.
+
+Theorem etcd_ranges_ok : forall n sched, etcd_fits n sched = true ->
+  etcd_err_trigger (etcd_trace n sched) = false ->
+  ForallOrdPairs ranges_ok (map vis (etcd_trace n sched)).
+Proof. intros n sched H. rewrite (etcd_trace_eq _ _ H). apply etcd_ranges_ok_u. Qed.
+
+Theorem etcd_partial_ok : forall n sched, etcd_fits n sched = true ->
   etcd_err_trigger (etcd_trace n sched) = false ->
   etcd_setmax_trigger (etcd_trace n sched) = false ->
   ForallOrdPairs ev_ok (map vis (etcd_trace n sched)).
+Proof. intros n sched H. rewrite (etcd_trace_eq _ _ H). apply etcd_partial_ok_u. Qed.
+
+(* per pair, no whole-trace hypothesis: two events that carry neither tag
+   (NextFileId returned 0 after an etcd error; SetMax that did not move the
+   sequence past k) satisfy the property *)
+Definition pair_ok (e1 e2 : mev) : Prop :=
+  untagged e1 = true -> untagged e2 = true -> ev_ok (vis e1) (vis e2).
+
+Lemma mev_ok_pair : forall e1 e2, mev_ok e1 e2 -> pair_ok e1 e2.
 Proof.
-  intros n sched Ht Hu. eapply fop_map_in; [apply etcd_all|].
-  intros x y Hx Hy Hxy. unfold etcd_err_trigger, etcd_setmax_trigger in *.
-  assert (Hn : forall z, In z (etcd_trace n sched) -> is_reterr z = false /\ is_unsafe_max z = false).
-  { intros z Hz. split.
-    - destruct (is_reterr z) eqn:E; auto. exfalso.
-      assert (existsb is_reterr (etcd_trace n sched) = true) by (apply existsb_exists; eauto). congruence.
-    - destruct (is_unsafe_max z) eqn:E; auto. exfalso.
-      assert (existsb is_unsafe_max (etcd_trace n sched) = true) by (apply existsb_exists; eauto). congruence. }
-  destruct (Hn x Hx) as [X1 X2]. destruct (Hn y Hy) as [Y1 Y2].
-  destruct x as [? ? ?|? ?|? ? []], y as [? ? ?|? ?|? ? []]; simpl in *; try discriminate; auto.
+  intros e1 e2 H U1 U2. unfold untagged in *.
+  destruct e1 as [? ? ?|? ?|? ? []], e2 as [? ? ?|? ?|? ? []]; simpl in *; try discriminate; auto.
+Qed.
+
+Lemma fop_impl : forall {A} (R R' : A -> A -> Prop) l, (forall x y, R x y -> R' x y) ->
+  ForallOrdPairs R l -> ForallOrdPairs R' l.
+Proof.
+  intros A R R' l Himp H. induction H as [|a l Hf Hp IH]; constructor; auto.
+  eapply Forall_impl; [|exact Hf]. intros; auto.
+Qed.
+
+Theorem etcd_pairs_ok : forall n sched, etcd_fits n sched = true -> ForallOrdPairs pair_ok (etcd_trace n sched).
+Proof. intros n sched H. eapply fop_impl; [apply mev_ok_pair|]. apply etcd_all; auto. Qed.
+
+(* per step, no hypothesis at all: the run up to the first step at which a
+   uint64 operation wraps satisfies the per-pair property; its trace is a
+   prefix of the whole run's outputs *)
+Theorem etcd_prefix_ok : forall n sched,
+  ForallOrdPairs pair_ok (etcd_trace n (firstn (etcd_fit_len n sched) sched)) /\
+  snd (erun (einit n) (firstn (etcd_fit_len n sched) sched)) = firstn (etcd_fit_len n sched) (snd (erun (einit n) sched)) /\
+  (etcd_fits n sched = true -> etcd_fit_len n sched = length sched).
+Proof.
+  intros n sched. split; [|split].
+  - apply etcd_pairs_ok. unfold etcd_fits, etcd_fit_len. apply gall_fit_len.
+  - unfold erun. apply grun_firstn.
+  - unfold etcd_fits, etcd_fit_len. apply gfit_len_all.
 Qed.
 
 (* ================================================================== *)
@@ -896,3 +1115,120 @@ Example vol_example :
   let sched := [VHb 3; VRead 0; VHb 2; VApply 0 true; VRead 1; VApply 1 false; VRead 1; VApply 1 true] in
   vlocked vinit sched = true /\ vfits vinit sched = true /\ rets (snd (vrun vinit sched)) = [4; 5].
 Proof. repeat split; vm_compute; reflexivity. Qed.
+
+(* ================================================================== *)
+(* 6. Per-step / per-pair forms and the refutations of the audit        *)
+(* ================================================================== *)
+
+(* memory: the run up to the first wrapping addition satisfies the property *)
+Theorem mem_prefix_ok : forall ops,
+  ForallOrdPairs ev_ok (somes (snd (mem_run mem_init (firstn (mem_fit_len mem_init ops) ops)))) /\
+  snd (mem_run mem_init (firstn (mem_fit_len mem_init ops) ops)) = firstn (mem_fit_len mem_init ops) (snd (mem_run mem_init ops)) /\
+  (mem_fits mem_init ops = true -> mem_fit_len mem_init ops = length ops).
+Proof.
+  intros ops. split; [|split].
+  - apply mem_ok. unfold mem_fits, mem_fit_len. apply gall_fit_len.
+  - unfold mem_run. apply grun_firstn.
+  - unfold mem_fits, mem_fit_len. apply gfit_len_all.
+Qed.
+
+(* leader change, per pair: a range of the old leader that lies at or below the
+   key k reported by the first heartbeat is never met again by the new leader *)
+Theorem mem_failover_pair : forall ops1 ops2 k,
+  mem_fits mem_init ops1 = true ->
+  mem_fits mem_init (MSetMax k :: ops2) = true ->
+  forall e1 e2, In e1 (somes (snd (mem_run mem_init ops1))) ->
+                In e2 (somes (snd (mem_run mem_init (MSetMax k :: ops2)))) ->
+                fo_unwritten k e1 = false -> ranges_ok e1 e2.
+Proof.
+  intros ops1 ops2 k Hf1 Hf2 e1 e2 H1 H2 Hw.
+  destruct e1 as [m1 s1 c1|]; [|exact I]. destruct e2 as [m2 s2 c2|]; [|exact I].
+  assert (Hmax : ForallOrdPairs ev_ok (somes (snd (mem_run mem_init (MSetMax k :: ops2)))))
+    by (apply mem_ok; auto).
+  pose proof (mem_actor0 _ _ _ H2) as Ha. simpl in Ha. subst m2.
+  unfold mem_run in *. simpl in Hmax, H2.
+  destruct (grun mem_step (if mem_init <=? k then w64 (k + 1) else mem_init) ops2) as [cf tr] eqn:Er.
+  simpl in Hmax, H2. destruct H2 as [H2|H2]; [discriminate|].
+  inversion Hmax as [|? ? Hfa _]; subst. rewrite Forall_forall in Hfa.
+  specialize (Hfa _ H2). simpl in Hfa.
+  unfold fo_unwritten, ev_hi in Hw.
+  intros x [Hx1 Hx2]. specialize (Hfa eq_refl x Hx2). unfold in_range in *.
+  destruct (c1 =? 0) eqn:Ec; lia.
+Qed.
+
+(* finding 4: the heartbeat reports the largest key WRITTEN (here 2, a key the
+   old leader handed out), not the largest key handed out (5) *)
+Lemma mem_failover_written_refuted :
+  exists ops1 ops2 k m s c,
+    mem_fits mem_init ops1 = true /\ mem_fits mem_init (MSetMax k :: ops2) = true /\
+    In (Ret m s c) (somes (snd (mem_run mem_init ops1))) /\ in_range k s c /\
+    exists e1 e2, In e1 (somes (snd (mem_run mem_init ops1))) /\
+                  In e2 (somes (snd (mem_run mem_init (MSetMax k :: ops2)))) /\ ~ ranges_ok e1 e2.
+Proof.
+  exists [MNext 5], [MNext 1], 2, 0%nat, 1, 5.
+  split; [vm_compute; reflexivity|]. split; [vm_compute; reflexivity|].
+  split; [vm_compute; auto|]. split; [unfold in_range; lia|].
+  exists (Ret 0 1 5), (Ret 0 3 1). split; [vm_compute; auto|]. split; [vm_compute; auto|].
+  intro H. apply (H 3). unfold in_range. lia.
+Qed.
+
+(* finding 3 (etcd): NextFileId(2^64-1) wraps currentSeqId + count: no batch is
+   fetched, currentSeqId moves backwards and key 1 is handed out twice *)
+Definition wit_wrap : list (nat * act) :=
+  boot 0 ++ [(0%nat, ANext 1); (0%nat, ATick Ok); (0%nat, ATick Ok);
+             (0%nat, ANext 18446744073709551615); (0%nat, ANext 1)].
+
+Lemma etcd_wrap_refuted :
+  etcd_err_trigger (etcd_trace 1 wit_wrap) = false /\
+  etcd_setmax_trigger (etcd_trace 1 wit_wrap) = false /\
+  map vis (etcd_trace 1 wit_wrap) = [Ret 0 1 1; Ret 0 2 18446744073709551615; Ret 0 1 1] /\
+  etcd_fit_len 1 wit_wrap = 7%nat /\
+  ~ ForallOrdPairs ev_ok (map vis (etcd_trace 1 wit_wrap)).
+Proof.
+  split; [vm_compute; reflexivity|]. split; [vm_compute; reflexivity|].
+  split; [vm_compute; reflexivity|]. split; [vm_compute; reflexivity|].
+  apply not_fop_of_okb. vm_compute. reflexivity.
+Qed.
+
+(* finding 3, second form: count = 2^64-500 makes reqSteps 0; NextFileId returns
+   key 0 without any etcd call *)
+Lemma etcd_wrap_zero_steps :
+  map vis (etcd_trace 1 (boot 0 ++ [(0%nat, ANext 18446744073709551116)])) = [Ret 0 0 18446744073709551116].
+Proof. vm_compute. reflexivity. Qed.
+
+(* the three older witnesses are runs without any wrap *)
+Lemma etcd_wits_fit :
+  etcd_fits 1 wit_setmax = true /\ etcd_fits 1 wit_setmax_ignored = true /\ etcd_fits 1 wit_err = true /\
+  etcd_fits 2 ex_etcd = true.
+Proof. repeat split; vm_compute; reflexivity. Qed.
+
+Lemma etcd_setmax_refuted_fit :
+  exists n sched, etcd_fits n sched = true /\ etcd_err_trigger (etcd_trace n sched) = false /\
+                  ~ ForallOrdPairs ev_ok (map vis (etcd_trace n sched)).
+Proof.
+  exists 1%nat, wit_setmax. split; [vm_compute; reflexivity|]. split; [vm_compute; reflexivity|].
+  apply not_fop_of_okb. vm_compute. reflexivity.
+Qed.
+
+Lemma etcd_err_refuted_fit :
+  exists n sched, etcd_fits n sched = true /\ etcd_setmax_trigger (etcd_trace n sched) = false /\
+                  ~ ForallOrdPairs ev_ok (map vis (etcd_trace n sched)).
+Proof.
+  exists 1%nat, wit_err. split; [vm_compute; reflexivity|]. split; [vm_compute; reflexivity|].
+  apply not_fop_of_okb. vm_compute. reflexivity.
+Qed.
+
+(* finding 5: two snowflake nodes with the same 10-bit node id generate the same
+   id in the same millisecond (all other hypotheses of sf_partial_ok hold) *)
+Definition wit_snow_collision : list sfcall :=
+  [ {| sc_node := 0; sc_count := 1; sc_now := 1000; sc_spin := 1001 |};
+    {| sc_node := 1; sc_count := 1; sc_now := 1000; sc_spin := 1001 |} ].
+
+Lemma sf_collision_refuted :
+  exists nids calls, forallb (fun x => x <? 1024) nids = true /\
+                     sf_clock_ok nids (sf_init nids) calls = true /\ sf_count_trigger calls = false /\
+                     ~ ForallOrdPairs ev_ok (somes (snd (sf_run nids (sf_init nids) calls))).
+Proof.
+  exists [5; 5], wit_snow_collision. split; [vm_compute; reflexivity|]. split; [vm_compute; reflexivity|].
+  split; [vm_compute; reflexivity|]. apply not_fop_of_okb. vm_compute. reflexivity.
+Qed.
